@@ -18,8 +18,8 @@ func muxProperty(c *mc.Ctx, prop string) {
 	for _, sc := range MuxScenarios(c.Thorough()) {
 		ExploreMux(c, sc, prop)
 	}
-	if prop == "C17" {
-		c17WriterFaults(c)
+	if prop == "C17" || prop == "C05" {
+		c17WriterFaults(c, prop)
 		c.Ev.Require("table-write-refused")
 	}
 }
